@@ -23,6 +23,20 @@ ROOT = Path(__file__).resolve().parent.parent
 VIOL, HELD, SKIP = 0, 1, 2
 
 
+def pick(k, n, lo=0):
+    """Concrete value of the bounded symbolic int k (lo <= k < lo+n) through a chain of explicit comparisons: every
+    comparison is an ordinary binary decision of the path tree, so the tree has exactly n leaves for k and exhausts after
+    n paths (crosshair.core.realize picks model values and needs super-linearly many paths to exhaust products)."""
+    for i in range(lo, lo + n - 1):
+        if k == i:
+            return i
+    return lo + n - 1
+
+
+def pickb(b):
+    return True if b else False
+
+
 # ---------------------------------------------------------------------------
 # known findings
 # ---------------------------------------------------------------------------
